@@ -487,12 +487,14 @@ func (d *DNSFilter) SetProtectionStatus(status bool, disabledUntil *time.Time) {
 	d.conf.ProtectionDisabledUntil = disabledUntil
 }
 
-// SetProtectionEnabled updates the status of protection.
+// SetProtectionEnabled updates the status of protection.  Setting the status
+// explicitly also ends the temporary pause of the protection, if there is one.
 func (d *DNSFilter) SetProtectionEnabled(status bool) {
 	d.confMu.Lock()
 	defer d.confMu.Unlock()
 
 	d.conf.ProtectionEnabled = status
+	d.conf.ProtectionDisabledUntil = nil
 }
 
 // SetBlockingMode sets blocking mode properties.
